@@ -379,6 +379,59 @@ Example C01_translated_functions_run :
   GoLite.call GoLiteC01.prog GoLite.no_ext 1 "OffsetAndSize.IsValid"%string [x] = GoLite.RRet (GoLite.VBool true).
 Proof. vm_compute. repeat split; reflexivity. Qed.
 
+(* ---------- the block-time table's accessors, translated (blocktimeindex/writer.go: Index.Get, Index.Set,
+   blocktimeToBytes; Generated/GoLiteBT.v): they ARE the model's bt_get / bt_set (C01_IndexAll), for every table whose
+   bounds and length are uint64 values and every slot ---------- *)
+Require YF.Generated.GoLiteBT YF.GoLiteBT_Index.
+
+Theorem C01_translated_blocktime_Get_is_bt_get : forall fuel (t : bt) (epoch capacity : Z) (slot : N),
+  (bt_start t < 18446744073709551616)%N -> (bt_end t < 18446744073709551616)%N -> (slot < 18446744073709551616)%N ->
+  (N.of_nat (List.length (bt_vals t)) < 18446744073709551616)%N ->
+  GoLite.call GoLiteBT.prog GoLiteBT_Index.ext_bt fuel "Index.Get"%string
+    [GoLiteBT_Index.index_of t epoch capacity; GoLite.VInt (Z.of_N slot)] =
+  match bt_get t slot with
+  | Some v => GoLite.RRet (GoLite.VTuple [GoLite.VInt (Z.of_N v); GoLite.VNil])
+  | None => GoLite.RRet (GoLite.VTuple [GoLite.VInt 0%Z; GoLiteBT_Index.oor])
+  end.
+Proof. exact (GoLiteBT_Index.Get_is_bt_get GoLiteBT.prog GoLiteBT.prog_Index_Get). Qed.
+
+(* Set stores at slot - start and changes nothing else wherever the value slice reaches (beyond it the code returns the
+   out-of-range error and leaves the table unchanged: GoLiteBT_Index.Set_spec) *)
+Theorem C01_translated_blocktime_Set_is_bt_set : forall fuel (t : bt) (epoch capacity : Z) (slot time : N),
+  (bt_start t < 18446744073709551616)%N -> (bt_end t < 18446744073709551616)%N -> (slot < 18446744073709551616)%N ->
+  (N.of_nat (List.length (bt_vals t)) < 18446744073709551616)%N ->
+  (slot - bt_start t < N.of_nat (List.length (bt_vals t)))%N ->
+  GoLite.call GoLiteBT.prog GoLiteBT_Index.ext_bt fuel "Index.Set"%string
+    [GoLiteBT_Index.index_of t epoch capacity; GoLite.VInt (Z.of_N slot); GoLite.VInt (Z.of_N time)] =
+  match bt_set t slot time with
+  | Some t' => GoLite.RRet (GoLite.VTuple [GoLite.VNil; GoLiteBT_Index.index_of t' epoch capacity])
+  | None => GoLite.RRet (GoLite.VTuple [GoLiteBT_Index.oor; GoLiteBT_Index.index_of t epoch capacity])
+  end.
+Proof. exact (GoLiteBT_Index.Set_is_bt_set GoLiteBT.prog GoLiteBT.prog_Index_Set). Qed.
+
+(* blocktimeToBytes: the 4-byte little-endian image of a time that fits 32 bits, an error otherwise (bt_marshal's guard) *)
+Theorem C01_translated_blocktimeToBytes : forall fuel (t : Z),
+  GoLite.call GoLiteBT.prog GoLiteBT_Index.ext_bt fuel "blocktimeToBytes"%string [GoLite.VInt t] =
+  if ((0 <=? t)%Z && (t <=? 4294967295)%Z)%bool
+  then GoLite.RRet (GoLite.VTuple [GoLite.VInts (GoLite.le_bytes 4 t); GoLite.VNil])
+  else GoLite.RRet (GoLite.VTuple [GoLite.VInts []; GoLite.VErr "fmt.Errorf"%string]).
+Proof. exact (GoLiteBT_Index.blocktimeToBytes_spec GoLiteBT.prog GoLiteBT.prog_blocktimeToBytes). Qed.
+
+(* non-vacuity: the translated accessors RUN: a stored time is read back, a slot past the slice is the error (no panic) *)
+Example C01_translated_blocktime_runs :
+  let t := {| bt_start := 432000; bt_end := 863999; bt_vals := [0; 0; 0]%N |} in
+  let i0 := GoLiteBT_Index.index_of t 1 3 in
+  let i1 := GoLiteBT_Index.index_of {| bt_start := 432000; bt_end := 863999; bt_vals := [0; 1700000000; 0]%N |} 1 3 in
+  GoLite.call GoLiteBT.prog GoLiteBT_Index.ext_bt 0 "Index.Set"%string [i0; GoLite.VInt 432001%Z; GoLite.VInt 1700000000%Z]
+    = GoLite.RRet (GoLite.VTuple [GoLite.VNil; i1]) /\
+  GoLite.call GoLiteBT.prog GoLiteBT_Index.ext_bt 0 "Index.Get"%string [i1; GoLite.VInt 432001%Z]
+    = GoLite.RRet (GoLite.VTuple [GoLite.VInt 1700000000%Z; GoLite.VNil]) /\
+  GoLite.call GoLiteBT.prog GoLiteBT_Index.ext_bt 0 "Index.Get"%string [i1; GoLite.VInt 432003%Z]
+    = GoLite.RRet (GoLite.VTuple [GoLite.VInt 0%Z; GoLiteBT_Index.oor]) /\
+  GoLite.call GoLiteBT.prog GoLiteBT_Index.ext_bt 0 "blocktimeToBytes"%string [GoLite.VInt 1700000000%Z]
+    = GoLite.RRet (GoLite.VTuple [GoLite.VInts [0; 241; 83; 101]%Z; GoLite.VNil]).
+Proof. vm_compute. repeat split; reflexivity. Qed.
+
 Print Assumptions C01_translated_uint_encoders_are_le_enc.
 Print Assumptions C01_translated_uint_encoders_panic_out_of_range.
 Print Assumptions C01_translated_uint_decoders_are_le_dec.
@@ -390,3 +443,6 @@ Print Assumptions C01_translated_Bytes_exact.
 Print Assumptions C01_translated_FromBytes_is_dec_os.
 Print Assumptions C01_translated_codec_roundtrip.
 Print Assumptions C01_translated_IsValid_is_the_enc_os_guard.
+Print Assumptions C01_translated_blocktime_Get_is_bt_get.
+Print Assumptions C01_translated_blocktime_Set_is_bt_set.
+Print Assumptions C01_translated_blocktimeToBytes.
